@@ -1,0 +1,51 @@
+// SPDX-FileCopyrightText: 2026 The Pion community <https://pion.ly>
+// SPDX-License-Identifier: MIT
+
+//go:build verif && verif_c19 && !js
+
+package webrtc
+
+import (
+	"net"
+
+	"github.com/pion/sctp"
+)
+
+// VerifStartOver starts the SCTP association of an ORTC-constructed
+// SCTPTransport over an arbitrary datagram net.Conn (the verification harness
+// passes an in-memory pipe in place of the DTLS connection) and then does what
+// Start does once the association exists: record it, mark the transport
+// connected and run acceptDataChannels. Property C19, suite "params".
+func (r *SCTPTransport) VerifStartOver(conn net.Conn) error {
+	assoc, err := sctp.ClientWithOptions(r.sctpClientOptions(conn, sctpMaxMessageSizeUnsetValue)...)
+	if err != nil {
+		return err
+	}
+	r.lock.Lock()
+	r.isStarted = true
+	r.sctpAssociation = assoc
+	r.state = SCTPTransportStateConnected
+	r.lock.Unlock()
+
+	go r.acceptDataChannels(assoc, nil)
+
+	return nil
+}
+
+// VerifAssociation returns the SCTP association (nil before connected), so the
+// harness can dial a raw pion/datachannel with arbitrary DCEP parameters.
+func (r *SCTPTransport) VerifAssociation() *sctp.Association {
+	return r.association()
+}
+
+// VerifDCEPConfig reports the channel type and reliability parameter that
+// DataChannel.open computed and handed to pion/datachannel.
+func (d *DataChannel) VerifDCEPConfig() (channelType uint8, reliability uint32, ok bool) {
+	d.mu.RLock()
+	defer d.mu.RUnlock()
+	if d.dataChannel == nil {
+		return 0, 0, false
+	}
+
+	return uint8(d.dataChannel.Config.ChannelType), d.dataChannel.Config.ReliabilityParameter, true
+}
